@@ -296,6 +296,11 @@ namespace AIToolbox::POMDP {
                 // For leaves we still extract entropy
                 if ( depth + 1 >= maxDepth_ )
                     immAndFutureRew = ot->second.getKnowledgeMeasure();
+                // Keep the leaf's value equal to the mean of the datapoints it has passed
+                // upwards. If a later simulation descends through this node (after the tree
+                // has been advanced, or with a longer horizon), the datapoint computed below
+                // replaces N-1 copies of the old value: they must be what the parent holds.
+                ot->second.V += ( immAndFutureRew - ot->second.V ) / static_cast<double>(ot->second.N);
             }
         }
 
